@@ -1628,7 +1628,13 @@ pub fn gen_c01(rng: &mut Rng, d: &mut Dist, _idx: u64) -> Vec<String> {
     if small {
         bump(d, "fetch-size-small");
         opts.push(format!("maxbytes={}", 40 + rng.below(200)));
-        opts.push("retrylimit=1000000".into());
+        if rng.chance(2, 3) {
+            opts.push("retrylimit=1000000".into());
+        } else {
+            // some entries fit no permitted size: they are reported, the other partitions must lose nothing
+            bump(d, "retry-limit-too-small");
+            opts.push(format!("retrylimit={}", *rng.pick(&[0u32, 64, 300])));
+        }
     }
     rng.shuffle(&mut opts);
     out.push(format!("OP consumer_create hosts={} {}", cl.bootstrap(), opts.join(" ")));
